@@ -39,6 +39,7 @@ class Cfg:
         self.ekind = {}     # id -> condition kind number for sscript / sact (0..3), blockby eo -> 3 / 2
         self.act = {}       # id -> action
         self.reacts = {}    # frame number -> [k, ...] of `react` lines
+        self.reactevs = {}  # frame number -> [(e, a, kind), ...] of `reactev` lines
         c = None
         a = None
         cur_in = None       # [own mods, own conds] of the current `in` item
@@ -58,6 +59,9 @@ class Cfg:
             if l.startswith("react "):
                 t = l.split(" ")
                 self.reacts.setdefault(int(t[1]), []).append(int(t[2]))
+            elif l.startswith("reactev "):
+                t = l.split(" ")
+                self.reactevs.setdefault(int(t[1]), []).append((t[2], t[3], t[4]))
         for l in sc:
             t = l.split(" ")
             w = t[0]
@@ -190,6 +194,9 @@ def explode(cfg, trace):
             # which delivery triggered a scripted reaction (`react <frame> <k> <op>`): the effective script
             dl = [l.split(" ") for l in lines if l.startswith("dlv ")]
             trig = [("react", f"{k} -> " + (" ".join(dl[k][1:4]) if k < len(dl) else "-")) for k in cfg.reacts.get(frame_no, [])]
+            # event-keyed reactions: did the event occur in this frame (independent of the order of deliveries)
+            trig += [("react", f"{e} {a} {kd} -> " + ("fired" if any(d[1] == e and d[2] == a and d[3] == kd for d in dl) else "idle"))
+                     for (e, a, kd) in cfg.reactevs.get(frame_no, [])]
             # the invocation log as a whole (who was evaluated, in which order)
             order = " ".join(l.split(" ")[1] for l in lines if l.startswith("inv "))
             pos = next((k for k, f in enumerate(facts) if rank(f[0]) >= 1), len(facts))
